@@ -248,7 +248,10 @@ func c11Enumerate(tier string, f func(i int64, mk func() c11Case) bool) {
 		docs = append(docs, d.JSON())
 	}
 	docs = append(docs, c11Docs...)
-	docs = append(docs, "? [1, 2]\n: v\n? {a: 1}\n: w\n", "~: 1\n1: 2\ntrue: 3\n", "a: !!binary YQ==\nb: !!set {x, y}\n", "\"\": 1\n\"a\\nb\": \"\\u0000\"\n", "a: .nan\nb: -.inf\nc: 1e400\n", "[[[[[[[[[[1]]]]]]]]]]\n")
+	docs = append(docs, "? [1, 2]\n: v\n? {a: 1}\n: w\n", "~: 1\n1: 2\ntrue: 3\n", "a: !!binary YQ==\nb: !!set {x, y}\n", "\"\": 1\n\"a\\nb\": \"\\u0000\"\n", "a: .nan\nb: -.inf\nc: 1e400\n", "[[[[[[[[[[1]]]]]]]]]]\n",
+		// comment hazards for the encoders that carry comments over: blank lines only, an empty comment, comments at every place
+		"\n\n\na: 1\n", "\n\n\n\n- 1\n", "#\na: 1 #\n#\n", "# \n\n# x\na: 1\n", "a: 1\n\n\n\n# foot\n", "---\n\n\n\na: 1\n", "# h\na: # la\n  # hb\n  b: 1 # lb\n  # fb\n\n# fa\n", "- # l\n  - 1\n# f\n",
+		"# only\n", "#\n", "\n\n\n")
 	for _, of := range c11OutFormats {
 		for _, d := range docs {
 			of, d := of, d
